@@ -43,3 +43,32 @@ Proof. vm_compute. repeat split; reflexivity. Qed.
 
 Lemma f5_repaired : results fixed_cfg f5_st0 f5_ops = [ROk; ROk; RErr EConflict].
 Proof. vm_compute. reflexivity. Qed.
+
+(* Who pays: a transaction is Notary-sponsored only when its SENDER is the Notary contract ([get_payer]). Booking
+   a main transaction that merely carries Notary among its further signers under (sender, Signers[1]) puts it in a
+   fee group of its own, while the Feer answers with the sender's GAS balance for both groups: each group passes
+   its balance check, together they exceed the balance. *)
+Definition payer_by_cosigner (t : tx) : payer :=
+  match signers t with
+  | s :: d :: _ => if has_signer notary t then (s, d) else (s, 0)
+  | s :: _ => (s, 0)
+  | [] => (0, 0)
+  end.
+Definition sum_fees_by (pf : tx -> payer) (p : payer) (l : list tx) : N :=
+  fold_right (fun e acc => if payer_eqb (pf e) p then fee e + acc else acc) 0 l.
+(* Blockchain.GetUtilityTokenBalance: the deposit for (Notary, depositor), otherwise the GAS balance of the primary *)
+Definition feer_view (bal : payer -> N) (p : payer) : N :=
+  if (fst p =? notary) && negb (snd p =? 0) then bal p else bal (fst p, 0).
+
+Definition pc_t1 : tx := mkTx 0 [2] 0 60 100 false [] None.
+Definition pc_t2 : tx := mkTx 1 [2; notary] 0 60 100 false [] None.     (* main transaction co-signed by Notary *)
+Definition pc_bal : payer -> N := fun p => if payer_eqb p (2, 0) then 100 else 0.
+
+Lemma payer_by_cosigner_refuted :
+  (forall p, In p [(2, 0); (2, notary)] -> sum_fees_by payer_by_cosigner p [pc_t1; pc_t2] <= feer_view pc_bal p)
+  /\ payer_of pc_t2 = (2, 0)
+  /\ sum_fees (2, 0) [pc_t1; pc_t2] = 120 /\ pc_bal (2, 0) = 100.
+Proof.
+  split; [|vm_compute; repeat split; reflexivity].
+  intros p [<-|[<-|[]]]; vm_compute; discriminate.
+Qed.
